@@ -104,6 +104,19 @@ NEEDS_G = {
  "C20": ("C20", "host selection returns None for HTTP/1.0 and HTTP/0.9 (Host header ignored)", "HTTP/1.0 request with a Host header and a server name present: mismatching host forwarded, matching host forwarded without the validated mark"),
 }
 
+NEEDS_H = {
+ "C01": ("C01", "set_host_header writes the Host header with insert instead of entry().or_insert_with()", "a caller-supplied Host header that differs from the URI authority, on an HTTP/1 connection: the server sees the URI authority"),
+ "C02": ("C02", "WhenReady::poll returns Ready at once when the origin's idle list has no room", "max_idle_per_host = 0, a connection type whose is_open stays true while busy, a request queued as a waiter before the hand-back task is polled: it is handed the busy connection"),
+ "C03": ("C03", "Checkout::poll clears owns_attempt when the waiter channel delivers a connection", "mixed HTTP/1.1 and HTTP/2 on one origin: an exclusive connection released to the HTTP/2 attempt owner; with continue_after_preemption=false (or the background attempt failing) the in-flight marker is never cleared and its waiters are never released"),
+ "C04": ("C04", "PoolInner::push clears the in-flight marker for any connection (not only shareable ones)", "an HTTP/1.1 connection released while an HTTP/2 attempt is in flight, then a second HTTP/2 request: it dials instead of waiting"),
+ "C05": ("C05", "PoolInner::new normalises idle_timeout with as_secs() > 0 (truncating): a sub-second timeout becomes None", "idle_timeout strictly between 0 and 1 s and a connection idle for longer"),
+ "C07": ("C07", "the server-side TLS stream's poll_shutdown completes the handshake first", "TLS acceptor, http1 protocol, the signal arriving while a client has sent no (or a partial) ClientHello: the connection task waits for the handshake forever"),
+ "C09": ("C09", "DuplexStream::new asserts max_buf_size > 0", "a duplex client connecting with buffer size 0: the assertion fires inside the accept loop and ends the serving future"),
+ "C14": ("C14", "PinnedDrop of Checkout checks owns_attempt (cancel) before as_delayed (continue in the background)", "continue_after_preemption=true, the first HTTP/2 request to an origin dropped or pre-empted before its dial finishes: the attempt is discarded instead of continued, followers fail"),
+ "C15": ("C15", "Builder::with_transport replaces the configured pool settings with the default", "pool configured before .with_transport(..) in the builder chain, max_idle_per_host below the default"),
+ "C18": ("C18", "TokioIo (tokio to hyper direction) advances the hyper cursor by the initialised length instead of the filled length", "an inner tokio reader that initialises more of the ReadBuf than it fills (initialize_unfilled + advance): zeros are delivered as data, EOF is never seen"),
+}
+
 import sys
 ROUND = sys.argv[1] if len(sys.argv) > 1 else ""
 if ROUND == "b":
@@ -124,14 +137,17 @@ if ROUND == "f":
 if ROUND == "g":
     NEEDS = NEEDS_G
     SEEDROOT = '/tmp/seed7'
+if ROUND == "h":
+    NEEDS = NEEDS_H
+    SEEDROOT = '/tmp/seed8'
 confirm = {}
-for f in ([SEEDROOT + '/confirm.log'] if ROUND in ('c','d','e','f','g') else glob.glob('/tmp/seed/r2_confirm*.log') if ROUND == 'b' else glob.glob('/tmp/seed/confirm_*.log') + glob.glob('/tmp/seed/confirm_single_*.log')):
+for f in ([SEEDROOT + '/confirm.log'] if ROUND in ('c','d','e','f','g','h') else glob.glob('/tmp/seed/r2_confirm*.log') if ROUND == 'b' else glob.glob('/tmp/seed/confirm_*.log') + glob.glob('/tmp/seed/confirm_single_*.log')):
     for l in open(f):
         m = re.match(r'CONFIRM (C\d+): suite (with|without) change \(incl\. demo\): (.*)', l)
         if m:
             confirm.setdefault(m.group(1), {})[m.group(2)] = m.group(3).strip()
 evals = {}
-for f in ([SEEDROOT + '/eval.log'] if ROUND in ('c','d','e','f','g') else sorted(glob.glob('/tmp/seed/r2_eval*.log')) if ROUND == 'b' else sorted(glob.glob('/tmp/seed/eval_*.log'))):
+for f in ([SEEDROOT + '/eval.log'] if ROUND in ('c','d','e','f','g','h') else sorted(glob.glob('/tmp/seed/r2_eval*.log')) if ROUND == 'b' else sorted(glob.glob('/tmp/seed/eval_*.log'))):
     for l in open(f):
         m = re.match(r'(C\d+)\.out/patch\.diff: caught by:(.*)\| machinery:(.*)\| silent:(.*)', l)
         if m:
@@ -176,7 +192,7 @@ for sid, (prop, change, needs) in sorted(NEEDS.items()):
 
 if ROUND:
     with open('/verif/seeded/README.md', 'a') as f:
-        f.write(("\nRound 7 (fourth change for the input- and time-quantified properties; all earlier ideas named):\n\n|" if ROUND == "g" else "\nRound 6 (fourth change for the pool, server and adapter properties; all earlier ideas named):\n\n|" if ROUND == "f" else "\nRound 5 (third change for the input- and time-quantified properties; all earlier ideas named):\n\n|" if ROUND == "e" else "\nRound 4 (pool, server and adapter properties again; both earlier ideas were named and had to be avoided):\n\n|" if ROUND == "d" else "\nRound 3 (properties that had one seed so far; the known idea was named and had to be avoided):\n\n|" if ROUND == "c" else "\nRound 2 (sub-agents were told which kind of defect already existed for the property and asked for a different one):\n\n|") + " seed | aimed at | change | needs | caught by (quick tier) |\n|---|---|---|---|---|\n")
+        f.write(("\nRound 8 (fifth change for the pool, server and adapter properties; all earlier ideas named; sub-agents also asked for observations on the unmodified code):\n\n|" if ROUND == "h" else "\nRound 7 (fourth change for the input- and time-quantified properties; all earlier ideas named):\n\n|" if ROUND == "g" else "\nRound 6 (fourth change for the pool, server and adapter properties; all earlier ideas named):\n\n|" if ROUND == "f" else "\nRound 5 (third change for the input- and time-quantified properties; all earlier ideas named):\n\n|" if ROUND == "e" else "\nRound 4 (pool, server and adapter properties again; both earlier ideas were named and had to be avoided):\n\n|" if ROUND == "d" else "\nRound 3 (properties that had one seed so far; the known idea was named and had to be avoided):\n\n|" if ROUND == "c" else "\nRound 2 (sub-agents were told which kind of defect already existed for the property and asked for a different one):\n\n|") + " seed | aimed at | change | needs | caught by (quick tier) |\n|---|---|---|---|---|\n")
         for sid, prop, change, needs, caught in rows:
             f.write(f"| {sid.lower()} | {prop} | {change} | {needs} | {' '.join(caught) if caught else '—'} |\n")
     print("kept", len(rows)); sys.exit(0)
